@@ -233,6 +233,10 @@ def gen_program(rng: random.Random, tier: str = "quick") -> dict:
         "far": far and n_ops > 0,
         # the mesh is assembled, then cleared / backported and assembled again before it is written
         "reassemble": rng.choice(["clear", "backport"]) if rng.random() < 0.3 else None,
+        # written (with the debug VTK), a vertex moved, backported and written again to the same paths
+        "rewrite": {"vertex": rng.randrange(1000), "d": [rng.choice([0.05, -0.07, 0.11]), rng.choice([0.0, 0.03]), rng.choice([0.0, -0.04])]}
+        if rng.random() < 0.2
+        else None,
     }
 
 
@@ -528,7 +532,7 @@ def request_words(decl: dict, case: dict, settings: Dict[str, Any], tails: List[
             ops.append(w)
         ents.append(w_list(ops) + w_list(_g_entries(e["geometry"])))
     words += w_list(ents)
-    words.append("1" if case.get("reassemble") else "0")
+    words.append("1" if case.get("reassemble") or case.get("rewrite") else "0")
     return words
 
 
@@ -552,7 +556,8 @@ class C06(core.Check):
         "start/outer patches and zones; mesh calls merge_patches / set_default_patch / modify_patch (with and without "
         "settings) / add_geometry / settings, 35% of the programs make part of them after an explicit assemble(); 30% "
         "delete one or two operations (also inside shapes); 30% assemble, then clear() or backport() and assemble again "
-        "before writing; uniform count-only chops. Non-trivial = every program; "
+        "before writing; 20% are written, get a vertex moved, are backported and written a second time to the same paths (the "
+        "second files are judged); uniform count-only chops. Non-trivial = every program; "
         "distinct = different declaration."
     )
     assumptions = [
@@ -592,8 +597,9 @@ class C06(core.Check):
         with warnings.catch_warnings():
             warnings.simplefilter("ignore")
             mesh, ents, apply = build(case)
+            rw = case.get("rewrite")
             re = case.get("reassemble")
-            if not re:
+            if not re and not rw:
                 decl = declaration(mesh, case, False)
             if case["explicit_assemble"] or re:
                 mesh.assemble()
@@ -609,13 +615,22 @@ class C06(core.Check):
             tmp = tempfile.mkdtemp(prefix="cbv_c06_", dir=str(core.ROOT / "evidence"))
             try:
                 path = os.path.join(tmp, "blockMeshDict")
-                vpath = os.path.join(tmp, "debug.vtk") if case["vtk"] else None
+                vpath = os.path.join(tmp, "debug.vtk") if case["vtk"] or rw else None
                 try:
+                    if rw:
+                        # written once, a vertex moved, the operations updated from the vertices (backport), written
+                        # again to the same paths: both files must describe the second state
+                        mesh.write(path, vpath)
+                        v = mesh.vertices[rw["vertex"] % len(mesh.vertices)]
+                        v.move_to([float(a) + float(b) for a, b in zip(v.position, rw["d"])])
+                        mesh.backport()
+                        decl = declaration(mesh, case, True)
                     mesh.write(path, vpath)
                 except Exception as e:  # a program of the generator must be writable
-                    return {"error": type(e).__name__ + ": " + str(e)[:300], "decl": decl}
+                    return {"error": type(e).__name__ + ": " + str(e)[:300], "decl": decl if "decl" in locals() else {"entities": []}}
                 text = open(path).read()
-                vtk = open(vpath).read() if vpath else None
+                vtk_missing = bool(vpath) and not os.path.exists(vpath)
+                vtk = open(vpath).read() if vpath and not vtk_missing else None
             finally:
                 shutil.rmtree(tmp, ignore_errors=True)
         tails = []
@@ -627,6 +642,7 @@ class C06(core.Check):
             "decl": decl,
             "tokens": tokenize(text),
             "vtk": vtk.split() if vtk is not None else None,
+            "vtk_missing": vtk_missing,
             "tails": tails,
             "settings": {k: (v if v is None else str(v)) for k, v in settings.items()},
             "vpos": [[float(x) for x in v.position] for v in mesh.vertex_list.vertices],
@@ -649,6 +665,8 @@ class C06(core.Check):
     def compare(self, case: dict, impl: Any, model: List[str]) -> Optional[str]:
         if case["kind"] == "protocol":
             return None if model[0] == case["want"] else f"request {case['req']!r}: answer {model[0][:80]!r}, expected {case['want']}"
+        if impl.get("vtk_missing"):
+            return "write(path, debug_path) did not write the debug VTK"
         m = re.fullmatch(r"ok idx=(\d) geom=(\d) quads=(\d) rt=(\d) T ?(.*)", model[0])
         if not m:
             return "model: " + model[0][:200]
@@ -1018,7 +1036,7 @@ class C06(core.Check):
                 for kx, v in c[1].items():
                     want_g[kx] = [nest(tokenize(p)) for p in v]
                     user_g[kx] = want_g[kx]
-        if case.get("reassemble"):
+        if case.get("reassemble") or case.get("rewrite"):
             # the second assembly adds the geometry of the entities again
             for e in decl["entities"]:
                 for kx, v in e["geometry"].items():
@@ -1098,7 +1116,8 @@ class C06(core.Check):
                     continue
                 projs = list(zip(["front", "right", "back", "left"], o["side_proj"])) + [("bottom", o["bottom_proj"]), ("top", o["top_proj"])]
                 for side, lab in projs:
-                    if lab in spheres and not off_sphere:
+                    # (a program that moves a vertex by hand may move it off its sphere: not judged there)
+                    if lab in spheres and not off_sphere and not case.get("rewrite"):
                         centre, radius = spheres[lab]
                         for c in BM_SIDE_CYCLE[side]:
                             p = [float(x) for x in verts[hexes[bi][c]]["xyz"]]
@@ -1123,6 +1142,8 @@ class C06(core.Check):
                 bad("parsed-file:projection-label-undefined", "Lean: geometryOk (parse file) = false")
 
         # ---- VTK
+        if impl.get("vtk_missing"):
+            bad("write_vtk:file-not-written", "write(path, debug_path) left no debug VTK although a path was given")
         if impl["vtk"] is not None:
             w = impl["vtk"]
             try:
@@ -1166,6 +1187,8 @@ class C06(core.Check):
             flags.append("far-origin")
         if case.get("reassemble"):
             flags.append("re-" + case["reassemble"])
+        if case.get("rewrite"):
+            flags.append("second-write")
         return "+".join(kinds) + "|" + "+".join(flags)
 
 
